@@ -1,6 +1,7 @@
 import copy
 import keyword
 import re
+import unicodedata
 from typing import Dict, Iterable, List, Tuple, Type, Union
 
 import inflection
@@ -331,6 +332,9 @@ def sort_kwargs(kwargs: dict, ordering: Iterable[Iterable[str]]) -> dict:
 def prepare_label(s: str, convert_unicode: bool, to_snake_case: bool) -> str:
     if convert_unicode:
         s = unidecode(s)
+    else:
+        # Python normalizes identifiers (NFKC) but not the strings that name them (aliases, converter paths)
+        s = unicodedata.normalize("NFKC", s)
     s = re.sub(r"\W", "", s)
     if not ('a' <= s[0].lower() <= 'z'):
         if '0' <= s[0] <= '9':
